@@ -29,6 +29,8 @@ def special_programs() -> dict:
         "nonl": "a :- b.\nc(X) :- d(X), not e(X).",
         "comments": "% only a comment\n%* block\n comment *%\n",
         "utf8": 'name("Zoë – ü中"). p(X) :- name(X). % café\nq("äöü") :- p(_).\n#show q/1.\n',
+        # clingo's parser itself emits a message (already included file) while reading this one
+        "warn": "#include <incmode>.\n#include <incmode>.\nb(X) :- c(X).\n{ a } :- b(X).\n#show a/0.\n",
         "big": big,
     }
 
@@ -113,6 +115,12 @@ def gen_spec(rng, text: str, cheap_only: bool) -> tuple[dict, str]:
                 chosen = [("zzz", 0)]
             sep = rng.choice([",", ", "])
             spec[key], dcls = sep.join(f"{n}/{a}" for n, a in chosen), "list"
+            if rng.random() < 0.25:
+                # spellings with stray blanks: before a name, before the slash, before the comma, around the arity
+                items = []
+                for n, a in chosen:
+                    items.append(rng.choice([f" {n}/{a}", f"{n} /{a}", f"{n}/ {a}", f"{n}/{a} ", f"{n}/{a}"]))
+                spec[key], dcls = sep.join(items), "list-stray-blanks"
         else:
             spec[key], dcls = rng.choice(["edge", "edge/x", "a/1/2", "a/1,b", "p/1;q/2"]), "malformed"
         cls += f"|{key}:{dcls}"
@@ -163,7 +171,16 @@ def gen_schedule(rng, data: bytes) -> tuple[dict, str]:
     sizes = rng.choice([[4096], [1], [7], [1, 7, 64, 512, 4096], [64, 512], [4096, 1]])
     policy = rng.choice(["random", "random", "stderr_last", "stdout_last"])
     buffering = rng.choices(["pipe", "tty", "unbuffered"], [0.7, 0.15, 0.15])[0]
+    stall = None
+    r = rng.random()
+    if r < 0.012:
+        stall = {"first": rng.choice([1.2, 2.5])}
+    elif r < 0.02 and chunks:
+        stall = {"mid": [rng.randrange(1, min(len(chunks), 4) + 1), rng.choice([1.2, 2.5])]}
+    elif r < 0.028:
+        stall = {"out": rng.choice([1.2, 2.5])}
     sched = {
+        "stall": stall,
         "chunks": chunks,
         "drain_seed": rng.randrange(2**31),
         "drain_sizes": sizes,
@@ -171,7 +188,10 @@ def gen_schedule(rng, data: bytes) -> tuple[dict, str]:
         "buffering": buffering,
         "small_pipes": rng.random() < 0.85,
     }
-    return sched, f"{ccls}/drain{'-'.join(map(str, sizes))}/{policy}/{buffering}"
+    scls = f"{ccls}/drain{'-'.join(map(str, sizes))}/{policy}/{buffering}"
+    if stall:
+        scls += "/stall-" + next(iter(stall))
+    return sched, scls
 
 
 def gen_fault(rng, approx_out: int) -> dict:
@@ -196,6 +216,8 @@ def make_run(rng, progs: dict, pid: str, faulted: bool, exec_: bool) -> dict:
         run["fault"] = gen_fault(rng, len(data))
     if exec_:
         run["exec"] = True
+        if run.get("stall") and "first" in run["stall"]:
+            run["stall"]["first"] += 2.0
     return run
 
 
@@ -300,6 +322,11 @@ def run(args) -> int:
                     stats["faults_fired"].setdefault(k, {"configured": 0, "fired": 0})
                     stats["faults_fired"][k]["configured"] += 1
                     stats["faults_fired"][k]["fired"] += 1 if fired else 0
+                if rn.get("stall"):
+                    k = "stall-" + next(iter(rn["stall"]))
+                    stats["faults_fired"].setdefault(k, {"configured": 0, "fired": 0})
+                    stats["faults_fired"][k]["configured"] += 1
+                    stats["faults_fired"][k]["fired"] += 1 if (ev["probes"].get("stalled") or k == "stall-out") else 0
                 if rn.get("exec"):
                     stats["exec_runs"] += 1
                 if ev["probes"].get("full_seen"):
@@ -403,11 +430,11 @@ def minimise(pool, seed, job, rn, ev, progs) -> dict:
     doc = {"property": "C19", "kind": kind, "seed": seed, "minimised": False}
     try:
         if same(rn):
-            simple = dict(rn, chunks=[], drain_sizes=[4096], drain_policy="random", buffering="pipe", small_pipes=True)
+            simple = dict(rn, chunks=[], drain_sizes=[4096], drain_policy="random", buffering="pipe", small_pipes=True, stall=None)
             if same(simple):
                 rn = simple
             else:
-                for k, v in (("chunks", []), ("drain_sizes", [4096]), ("buffering", "pipe"), ("drain_policy", "random")):
+                for k, v in (("stall", None), ("chunks", []), ("drain_sizes", [4096]), ("buffering", "pipe"), ("drain_policy", "random")):
                     c = dict(rn)
                     c[k] = v
                     if same(c):
